@@ -4,15 +4,21 @@ package validating
 // are checked against exactly these promises in pkg/controller/rollout/zz_verif_c09.go).
 
 import (
+	"context"
 	"fmt"
 
+	appsv1alpha1 "github.com/openkruise/rollouts/api/v1alpha1"
 	appsv1beta1 "github.com/openkruise/rollouts/api/v1beta1"
+	"github.com/openkruise/rollouts/pkg/util"
 	"github.com/openkruise/rollouts/pkg/verifrt"
 	"github.com/openkruise/rollouts/pkg/verifrt/symclient"
+	admissionv1 "k8s.io/api/admission/v1"
 	metav1 "k8s.io/apimachinery/pkg/apis/meta/v1"
+	"k8s.io/apimachinery/pkg/runtime"
 	"k8s.io/apimachinery/pkg/util/intstr"
 	"k8s.io/apimachinery/pkg/util/validation/field"
 	"sigs.k8s.io/controller-runtime/pkg/client"
+	"sigs.k8s.io/controller-runtime/pkg/webhook/admission"
 )
 
 func c09Replicas(name string, rich bool) *intstr.IntOrString {
@@ -133,10 +139,10 @@ func c09Pct(v *intstr.IntOrString) (int, bool) {
 
 // VerifC09_AcceptedSpecPromises: every spec validateRolloutSpec accepts has exactly one strategy, a non-empty list of
 // steps with parseable positive replicas, non-decreasing comparable neighbours, sane traffic and at most one routing.
-func VerifC09_AcceptedSpecPromises_Strategies()       { c09Accepted(0) }
-func VerifC09_AcceptedSpecPromises_CanarySteps()      { c09Accepted(1) }
-func VerifC09_AcceptedSpecPromises_CanaryRoutings()   { c09Accepted(2) }
-func VerifC09_AcceptedSpecPromises_BlueGreenSteps()   { c09Accepted(3) }
+func VerifC09_AcceptedSpecPromises_Strategies()        { c09Accepted(0) }
+func VerifC09_AcceptedSpecPromises_CanarySteps()       { c09Accepted(1) }
+func VerifC09_AcceptedSpecPromises_CanaryRoutings()    { c09Accepted(2) }
+func VerifC09_AcceptedSpecPromises_BlueGreenSteps()    { c09Accepted(3) }
 func VerifC09_AcceptedSpecPromises_BlueGreenRoutings() { c09Accepted(4) }
 
 func c09Accepted(mode int) {
@@ -261,4 +267,55 @@ func VerifC09_OneRolloutPerWorkload() {
 	}
 	verifrt.Cover("accepted")
 	verifrt.Assert(other.Name == r.Name || other.Spec.WorkloadRef != r.Spec.WorkloadRef, "C09.conflict.oneRolloutPerWorkload")
+}
+
+func c09Decoder() *admission.Decoder {
+	scheme := runtime.NewScheme()
+	_ = appsv1beta1.AddToScheme(scheme)
+	_ = appsv1alpha1.AddToScheme(scheme)
+	d, err := admission.NewDecoder(scheme)
+	if err != nil {
+		panic(err)
+	}
+	return d
+}
+
+// VerifC09_HandleUpdateImmutableWhileProgressing: the same promise through the real admission entry point: an UPDATE
+// request (v1beta1) whose old and new objects differ in a frozen field is denied while the stored Rollout is
+// Progressing/Terminating — old and new are taken from the request's oldObject / object.
+func VerifC09_HandleUpdateImmutableWhileProgressing() {
+	oldObj, newObj := c09ValidRollout("old"), c09ValidRollout("new")
+	oldObj.TypeMeta = metav1.TypeMeta{APIVersion: "rollouts.kruise.io/v1beta1", Kind: "Rollout"}
+	newObj.TypeMeta = oldObj.TypeMeta
+	latest := oldObj.DeepCopy()
+	phases := []appsv1beta1.RolloutPhase{appsv1beta1.RolloutPhaseProgressing, appsv1beta1.RolloutPhaseTerminating, appsv1beta1.RolloutPhaseHealthy}
+	latest.Status.Phase = phases[verifrt.IntRange("phase", 0, len(phases)-1)]
+	cli := &symclient.Client{Objects: []client.Object{latest}}
+	h := &RolloutCreateUpdateHandler{Client: cli}
+	if !verifrt.Symbolic() {
+		h.Decoder = c09Decoder()
+	}
+	req := admission.Request{AdmissionRequest: admissionv1.AdmissionRequest{
+		Operation: admissionv1.Update,
+		Kind:      metav1.GroupVersionKind{Group: "rollouts.kruise.io", Version: "v1beta1", Kind: "Rollout"},
+		Object:    runtime.RawExtension{Raw: []byte(util.DumpJSON(newObj))},
+		OldObject: runtime.RawExtension{Raw: []byte(util.DumpJSON(oldObj))},
+	}}
+	resp := h.Handle(context.TODO(), req)
+	if !resp.Allowed {
+		verifrt.Cover("denied")
+		return
+	}
+	verifrt.Cover("allowed")
+	if latest.Status.Phase == appsv1beta1.RolloutPhaseProgressing || latest.Status.Phase == appsv1beta1.RolloutPhaseTerminating {
+		verifrt.Cover("allowed-while-progressing")
+		verifrt.Assert(oldObj.Spec.WorkloadRef == newObj.Spec.WorkloadRef, "C09.handle.update.workloadRefImmutable")
+		verifrt.Assert(len(oldObj.Spec.Strategy.GetSteps()) == len(newObj.Spec.Strategy.GetSteps()), "C09.handle.update.stepCountImmutable")
+		verifrt.Assert(oldObj.Spec.Strategy.GetRollingStyle() == newObj.Spec.Strategy.GetRollingStyle(), "C09.handle.update.styleImmutable")
+		ot, nt := oldObj.Spec.Strategy.GetTrafficRouting(), newObj.Spec.Strategy.GetTrafficRouting()
+		verifrt.Assert(len(ot) == len(nt), "C09.handle.update.trafficRoutingImmutable.count")
+		if len(ot) == 1 && len(nt) == 1 {
+			verifrt.Assert(ot[0].Service == nt[0].Service, "C09.handle.update.trafficRoutingImmutable.service")
+		}
+	}
 }
